@@ -44,6 +44,7 @@ type skWalker struct {
 	locals   map[types.Object]string // nsrc: local variable -> %k
 	pure     map[types.Object]ast.Expr // nsrc: local defined once by a pure primary expression -> that expression
 	depth    int                       // nsrc: nesting (a substituted expression is written inside the text it occurs in)
+	recv     types.Object              // nsrc: the receiver of the function (its fields are protocol state, kept by name)
 }
 
 // pureLocals: the local variables of a function body that are defined exactly once, by `x := e` with ONE name on
@@ -225,8 +226,24 @@ func (w *skWalker) nsrc(n ast.Node) string {
 		if _, isLit := x.(*ast.FuncLit); isLit {
 			return true
 		}
+		// an unexported field of a local that is not the receiver (with.sendCreate, watch.recurse, ev.renamedFrom) is
+		// data: its name is written "·" (the receiver's fields — done, mu, Events, watches — are protocol state
+		// and keep their names)
+		if se, isSel := x.(*ast.SelectorExpr); isSel {
+			if base, isId := se.X.(*ast.Ident); isId {
+				if bo, isVar := w.p.TypesInfo.Uses[base].(*types.Var); isVar && !bo.IsField() && bo != w.recv && bo.Parent() != nil && bo.Pkg() != nil && bo.Parent() != bo.Pkg().Scope() {
+					if fo, isF := w.p.TypesInfo.Uses[se.Sel].(*types.Var); isF && fo.IsField() && !fo.Exported() {
+						undo = append(undo, saved{se.Sel, se.Sel.Name})
+						se.Sel.Name = "·"
+					}
+				}
+			}
+		}
 		id, ok := x.(*ast.Ident)
 		if !ok {
+			return true
+		}
+		if id.Name == "·" {
 			return true
 		}
 		obj := w.p.TypesInfo.Uses[id]
@@ -453,7 +470,7 @@ func (w *skWalker) stmt(s ast.Stmt) {
 			if id, ok := x.Lhs[0].(*ast.Ident); ok {
 				if fl, ok := x.Rhs[0].(*ast.FuncLit); ok {
 					sub := &skFn{name: w.fn.name + "$" + id.Name, file: w.fn.file, calls: map[string]bool{}}
-					sw := &skWalker{p: w.p, fn: sub, closures: w.closures, extra: w.extra, pure: pureLocals(w.p.TypesInfo, fl.Body)}
+					sw := &skWalker{p: w.p, fn: sub, closures: w.closures, extra: w.extra, pure: pureLocals(w.p.TypesInfo, fl.Body), recv: w.recv}
 					sw.stmts(fl.Body.List)
 					w.closures[id.Name] = sub
 					*w.extra = append(*w.extra, sub)
@@ -788,6 +805,9 @@ func emitSkeleton(b *strings.Builder, p *packages.Package) error {
 			fn := &skFn{name: fnName(fd), file: file, calls: map[string]bool{}}
 			var extra []*skFn
 			w := &skWalker{p: p, fn: fn, closures: map[string]*skFn{}, extra: &extra, pure: pureLocals(p.TypesInfo, fd.Body)}
+			if fd.Recv != nil && len(fd.Recv.List) == 1 && len(fd.Recv.List[0].Names) == 1 {
+				w.recv = p.TypesInfo.Defs[fd.Recv.List[0].Names[0]]
+			}
 			w.stmts(fd.Body.List)
 			// keep fsnotify.go only for functions with concurrency content (and their closures with them)
 			if file == "fsnotify.go" {
